@@ -114,6 +114,11 @@ def _plugin_child(world, spec, out_path, trace_path):
     if spec.get("from_parent"):
         # the user starts pytest one directory above the project and names the project directory on the command line
         os.chdir(os.path.dirname(world))
+    elif spec.get("from_sibling"):
+        # ... or in a directory next to the project (the test files are not below the current directory)
+        d = os.path.join(os.path.dirname(world), "elsewhere")
+        os.makedirs(d, exist_ok=True)
+        os.chdir(d)
     sys.dont_write_bytecode = not spec.get("bytecode")
     _base_env(spec.get("env"))
     if spec.get("bytecode"):
@@ -179,6 +184,8 @@ def _plugin_child(world, spec, out_path, trace_path):
     argv += spec.get("argv", [])
     if spec.get("from_parent"):
         argv.append(os.path.basename(world))
+    elif spec.get("from_sibling"):
+        argv.append(os.path.join("..", os.path.basename(world)))
     argv += ["-q", "-rA", "--tb=short"]
     rc = None
     try:
